@@ -304,6 +304,7 @@ impl C08 {
 
     pub fn judge_stream(d: &[u8], label: &str, nperturb: usize, r: &mut Rng, ctx: &mut Ctx) {
         ctx.item_bytes(label, d);
+        ctx.phase("nonverdict: parse + estimate");
         let est = match cur::estimate(d) {
             Out::Ok(v) => v,
             Out::Err(c) => {
@@ -330,9 +331,13 @@ impl C08 {
             ctx.note("estimator_vector_outside_described_image", json!({"est": est.to_vec(), "recoupled": chk.to_vec(), "how": label}));
         }
         ctx.nontrivial(hash64(d));
+        ctx.phase("verdict: encode/decode under chosen parameter vectors");
         // the estimator's own vector, cross-checked against the public path
         let (_, own_csize) = Self::judge_pair(d, &est, "estimator's own vector", label, ctx, false);
-        if let (Some(cs), Out::Ok(a)) = (own_csize, cur::analyze(d, false)) {
+        ctx.phase("nonverdict: hook cross-check against the public analysis");
+        let pubres = cur::analyze(d, false);
+        ctx.phase("verdict: encode/decode under chosen parameter vectors");
+        if let (Some(cs), Out::Ok(a)) = (own_csize, pubres) {
             ctx.count("hook_crosschecks");
             if a.corr.len() != cs {
                 ctx.count("hook_crosscheck_failed");
